@@ -350,7 +350,7 @@ fn one_run(i: usize, run_seed: u64, b: &Budget) -> RunOut {
     }
     out.count("evaluations", evals);
     out.log_hash = log.finish();
-    if i % 97 == 0 {
+    if i % 97 == 0 || i < 2 {
         out.sample = Some(json!({
             "object": oclass, "params": scn.spec.to_json(), "encoding_bytes": m.enc.len(),
             "cases": ["eof at every offset", "read error at every offset", "write error at every offset", "fragmented"],
